@@ -34,6 +34,9 @@ type Family struct {
 	Gen func(rng *rand.Rand, n int, mode string) []J
 	// Run executes one case against yae and returns the observation (the "obs" field)
 	Run func(c J) J
+	// Fresh: every case runs in its own worker process, and what that process wrote to
+	// stderr (race detector reports) and its exit code are attached to the observation
+	Fresh bool
 }
 
 var families = map[string]*Family{}
@@ -114,8 +117,8 @@ func (t *tailBuf) Write(p []byte) (int, error) {
 	t.mu.Lock()
 	defer t.mu.Unlock()
 	t.b = append(t.b, p...)
-	if len(t.b) > 8192 {
-		t.b = t.b[len(t.b)-8192:]
+	if len(t.b) > 1<<18 {
+		t.b = t.b[len(t.b)-1<<18:]
 	}
 	return len(p), nil
 }
@@ -250,6 +253,26 @@ func run(family string, fam *Family, args []string) {
 					crashes++
 					mu.Unlock()
 				}
+				if fam.Fresh && fail == "" {
+					ch.in.Close()
+					werr := ch.cmd.Wait()
+					code := 0
+					if ee, ok := werr.(*exec.ExitError); ok {
+						code = ee.ExitCode()
+					} else if werr != nil {
+						code = -1
+					}
+					var c J
+					if json.Unmarshal(res, &c) == nil {
+						if o, ok := c["obs"].(map[string]interface{}); ok {
+							o["proc"] = J{"exit": code, "races": parseRaces(ch.stderr.String())}
+							if b, err := json.Marshal(c); err == nil {
+								res = append(b, '\n')
+							}
+						}
+					}
+					ch = nil
+				}
 				results[i] = res
 			}
 			if ch != nil {
@@ -275,6 +298,52 @@ func run(family string, fam *Family, args []string) {
 	}
 	w.Flush()
 	fmt.Fprintf(os.Stderr, "harness: family=%s cases=%d died=%d\n", family, len(cases), crashes)
+}
+
+// parseRaces splits the race detector's output into reports; for each report the first frame of
+// either access stack that is not Go's own (runtime, sort, reflect, sync, ...) tells whose race it is
+func parseRaces(stderr string) A {
+	out := A{}
+	blocks := strings.Split(stderr, "WARNING: DATA RACE")
+	for _, b := range blocks[1:] {
+		if i := strings.Index(b, "=================="); i >= 0 {
+			b = b[:i]
+		}
+		owners := A{}
+		fns := A{}
+		inStack := false
+		found := false
+		for _, line := range strings.Split(b, "\n") {
+			t := strings.TrimSpace(line)
+			switch {
+			case strings.HasPrefix(t, "Read at") || strings.HasPrefix(t, "Write at") || strings.HasPrefix(t, "Previous ") ||
+				strings.HasPrefix(t, "Atomic "):
+				inStack, found = true, false
+			case strings.HasPrefix(t, "Goroutine "):
+				inStack = false
+			case inStack && !found && strings.HasSuffix(t, ")") && strings.Contains(t, "(") && !strings.HasPrefix(t, "/"):
+				fn := t[:strings.LastIndex(t, "(")]
+				if strings.Contains(fn, "goghcrow/yae") {
+					owners = append(owners, "yae")
+					fns = append(fns, fn)
+					found = true
+				} else if strings.HasPrefix(fn, "main.") {
+					owners = append(owners, "harness")
+					fns = append(fns, fn)
+					found = true
+				}
+			}
+		}
+		out = append(out, J{"owners": owners, "fns": fns, "text": clipHead(strings.TrimSpace(b), 1800)})
+	}
+	return out
+}
+
+func clipHead(s string, n int) string {
+	if len(s) > n {
+		return s[:n]
+	}
+	return s
 }
 
 func tailStr(s string, n int) string {
